@@ -72,7 +72,13 @@ struct dyn_rtti : virtual policy::rtti {
 
     template<typename T>
     static type_id dynamic_type(const T& obj) {
-        return obj.type;
+        if constexpr (std::is_base_of_v<Obj, T>) {
+            return obj.type;
+        } else {
+            // what std_rtti would answer for an object that is not of a registered hierarchy
+            static char id;
+            return reinterpret_cast<type_id>(&id);
+        }
     }
 
     template<typename Stream>
@@ -107,7 +113,13 @@ struct dyn_deferred_rtti : virtual policy::deferred_static_rtti {
 
     template<typename T>
     static type_id dynamic_type(const T& obj) {
-        return obj.type;
+        if constexpr (std::is_base_of_v<Obj, T>) {
+            return obj.type;
+        } else {
+            // what std_rtti would answer for an object that is not of a registered hierarchy
+            static char id;
+            return reinterpret_cast<type_id>(&id);
+        }
     }
 
     template<typename Stream>
@@ -143,7 +155,13 @@ struct tag_rtti : virtual policy::rtti {
     }
     template<typename T>
     static type_id dynamic_type(const T& obj) {
-        return obj.type;
+        if constexpr (std::is_base_of_v<Obj, T>) {
+            return obj.type;
+        } else {
+            // what std_rtti would answer for an object that is not of a registered hierarchy
+            static char id;
+            return reinterpret_cast<type_id>(&id);
+        }
     }
     template<typename Stream>
     static void type_name(type_id type, Stream& stream) {
@@ -286,6 +304,17 @@ struct PolicyTraits {
     static constexpr bool indirect = Policy::template has_facet<policy::indirect_vptr>;
     static constexpr bool deferred = std::is_base_of_v<policy::deferred_static_rtti, Policy>;
 };
+
+template<class T, class = void>
+struct has_type_resolved : std::false_type {};
+template<class T>
+struct has_type_resolved<T, std::void_t<decltype(std::declval<T&>().type_resolved)>> : std::true_type {};
+template<class Info>
+void clear_type_resolved(Info& info) {
+    if constexpr (has_type_resolved<Info>::value) {
+        info.type_resolved = false;
+    }
+}
 
 template<class T, class = void>
 struct has_control : std::false_type {};
